@@ -15,7 +15,7 @@ from ..core import Outcome
 ID = "C14"
 LEVEL = "exploration"
 RULE = (
-    "Hypothesis draws towers 1..3 x steps 1..4 (1x1 included) with per-step met values (repeated conditions allowed), footprint or "
+    "Hypothesis draws towers 1..3 x steps 1..4 (1x1 included) with per-step met values (repeated conditions allowed; all forcing fields as lists, or only one or two of them with the rest scalar), footprint or "
     "dispersion, optional user time labels whose sort order differs from the series order (newest first, unpadded hours, day-first dates, descending integers), halo default / 0 / explicit, precision, a parallel strategy in {towers, time, both}, max_workers 1..5, parent "
     "NUM_THREADS in {1, 4}, use_cache on/off, an optional user-supplied surface flux for the serial drivers, the configured ideal source (shape, off-centre location), and a delay table (tower, step) -> {0, 20, 60, 120} ms. Schedule control: "
     "bldfm.interface.run_bldfm_single is wrapped before the pool forks so that every worker sleeps its drawn delay first - the "
@@ -56,6 +56,9 @@ def _case(draw):
         # user labels; their sort order has nothing to do with the series order (newest first, unpadded hours,
         # day-first dates across New Year, descending integers)
         "timestamps": draw(st.sampled_from([False, "iso", "newest-first", "unpadded", "day-first", "int-desc"])),
+        # which forcing fields are per-step lists (the others are scalars shared by all steps): a wind-direction
+        # sweep or a stability sweep at otherwise fixed forcing is a series too
+        "vary": draw(st.sampled_from(["all", "all", "wind_dir", "mol", "wind_speed+wind_dir", "ustar"])),
         "user_flux": draw(st.sampled_from([False, False, True])),
         "src_loc": draw(st.sampled_from([None, [30.0, 110.0], [125.0, 40.0]])),  # ideal source off the domain centre
         "flux_shape": draw(st.sampled_from(["diamond", "circle", "point"])),
@@ -75,6 +78,9 @@ def _config(case):
            "wind_speed": [m[2] for m in case["met"]], "wind_dir": [m[3] for m in case["met"]]}
     if nt == 1 and case["delays"][0][0] % 40 == 0:  # scalars now and then
         met = {k: v[0] for k, v in met.items()}
+    elif case.get("vary", "all") != "all":
+        lists = case["vary"].split("+")
+        met = {k: (v if k in lists else v[0]) for k, v in met.items()}
     if case["timestamps"] and isinstance(met["ustar"], list):
         style = case["timestamps"]
         met["timestamps"] = {
